@@ -42,7 +42,8 @@ PROPS = {
     },
     "C15": {
         "level": "proof",
-        "lean_targets": ["LP.Props.C15", "LP.Props.C15V", "LP.Props.C15P"],
+        "lean_targets": ["LP.Props.C15", "LP.Props.C15V", "LP.Props.C15P", "LP.Props.GenTables"],
+        "gen_tables": True,
         "harnesses": [{"name": "h_interval", "quick": 60000, "thorough": 1000000},
                       {"name": "h_pival", "quick": 5000, "thorough": 100000}],
         "select": lambda t: t[1] in ("qi", "di", "vi", "vil", "pi"),
@@ -247,7 +248,8 @@ PROPS = {
     },
     "C10": {
         "level": "proof",
-        "lean_targets": ["LP.Props.C10", "LP.Props.Elim"],
+        "lean_targets": ["LP.Props.C10", "LP.Props.Elim", "LP.Props.GenTables"],
+        "gen_tables": True,
         "harnesses": [{"name": "h_eval", "quick": 700, "thorough": 15000}],
         "select": lambda t: t[1] == "ev" and t[2] in ("sgn", "value", "cons"),
         "nontrivial": lambda t, r: True,
@@ -275,7 +277,8 @@ PROPS = {
     },
     "C12": {
         "level": "proof",
-        "lean_targets": ["LP.Props.C12", "LP.Props.C12Exact", "LP.Props.C12Compl"],
+        "lean_targets": ["LP.Props.C12", "LP.Props.C12Exact", "LP.Props.C12Compl", "LP.Props.GenTables"],
+        "gen_tables": True,
         "harnesses": [{"name": "h_eval", "quick": 250, "thorough": 4000, "env": {"LPV_EVAL_MODE": "fs"}}],
         "select": lambda t: t[1] == "ev" and t[2] in ("fs", "rfs"),
         "nontrivial": lambda t, r: True,
